@@ -64,6 +64,14 @@ impl Val {
         let mut out = Vec::with_capacity(len.max(head.len()));
         out.extend_from_slice(&head);
         let mut x = self.tag.wrapping_mul(2654435761);
+        if self.tag % 3 == 0 {
+            // every third value is padded with one repeated letter: highly compressible, so that
+            // table blocks are actually stored compressed (pseudo-random letters are not worth
+            // compressing and RainDB then stores the block raw)
+            let c = b'a' + (x % 26) as u8;
+            out.resize(len.max(out.len()), c);
+            return out;
+        }
         while out.len() < len {
             x ^= x << 13;
             x ^= x >> 17;
